@@ -18,13 +18,14 @@ Definition tokens_of (l : list lev) : list nat :=
 
 (* the harness clears its log and the result's event list before each run *)
 Definition clear (s : st) : st := set_tr [] (set_log [] s).
-(* the instance after the runs of [l], started in state [s] *)
-Definition state_after (l : list prog) (s : st) : st :=
-  fold_left (fun s p => fst (fst (run_from p (clear s)))) l s.
-Definition start_state (i : input) : st := state_after (i_prev i) (init (first_prog i) []).
+(* the instance after the runs of [l], started in state [s]; every run gets a fresh RunTest from the
+   case's factory [r] *)
+Definition state_after (r : runner) (l : list prog) (s : st) : st :=
+  fold_left (fun s p => fst (fst (run_from_runner r p (clear s)))) l s.
+Definition start_state (i : input) : st := state_after (i_runner i) (i_prev i) (init (first_prog i) []).
 
 Definition model (i : input) : obs :=
-  let '(s, propagated, oof) := run_from (i_prog i) (clear (start_state i)) in
+  let '(s, propagated, oof) := run_from_runner (i_runner i) (i_prog i) (clear (start_state i)) in
   {| o_events := if oof then [] else events_of (i_flavour i) (tr s);
      o_raised := match propagated with Some e => kind_of e | None => RNone end;
      o_ran := tokens_of (log s) |}.
